@@ -143,8 +143,8 @@ func (rf *RouteFamily) Install() {
 				{Name: "ensures#dispatch", Props: []string{"C03", "C05"}, Formula: implies(notCors, eq(sx("baseOf", h), r.Base))},
 				{Name: "ensures#template", Props: []string{"C03", "C16"}, Formula: eq(results[1], r.Out)},
 				{Name: "ensures#hasPath", Props: []string{"C16", "C17"}, Formula: eq(results[2], r.HasPath)},
-				{Name: "ensures#auth", Props: []string{"C11"}, Formula: implies(notCors, and(not(r.Bad), eq(sx("authOf", h), r.Auth), eq(sx("isSec", h), r.Sec)))},
-				{Name: "ensures#cors", Props: []string{"C17"}, Formula: implies(or(r.Cors, eq(args[2], e.D.Lit("OPTIONS"))), eq(h, r.H))},
+				{Name: "ensures#auth", Props: []string{"C11"}, Formula: implies(notCors, and(not(r.Bad), eq(sx("seq_set", sx("authOf", h)), sx("seq_set", r.Auth)), eq(sx("seq_len", sx("authOf", h)), sx("seq_len", r.Auth)), eq(sx("isSec", h), r.Sec)))},
+				{Name: "ensures#cors", Props: []string{"C17"}, Formula: and(implies(r.Cors, eq(h, r.H)), implies(and(notCors, eq(args[2], e.D.Lit("OPTIONS"))), eq(sx("baseOf", h), r.Base)))},
 			}
 		}
 		rf.Em.W.Contracts[f.String()] = c
